@@ -484,3 +484,161 @@ impl fmt::Display for RecvError {
         "receiving from a closed channel".fmt(f)
     }
 }
+
+/// Public wrappers around the crate-private queue and channel, for the
+/// verification harnesses (only compiled with `--cfg nexosim_verif`).
+#[cfg(nexosim_verif)]
+#[allow(missing_docs, missing_debug_implementations, unreachable_pub)]
+pub mod verif_exports {
+    use recycle_box::{coerce_box, RecycleBox};
+
+    use super::queue::{MessageBorrow, PopError, PushError, Queue};
+    use super::{ChannelObserver, Receiver, Sender};
+    use crate::model::{Context, Model};
+    use crate::simulation::{Action, Address, GlobalScheduler};
+    use crate::time::{AtomicTime, MonotonicTime, TearableAtomicTime};
+    use crate::util::priority_queue::PriorityQueue;
+    use crate::verif::sync::{Arc, Mutex};
+
+    #[derive(Clone, Copy, Debug, PartialEq, Eq)]
+    pub enum VPushError {
+        Full,
+        Closed,
+    }
+    #[derive(Clone, Copy, Debug, PartialEq, Eq)]
+    pub enum VPopError {
+        Empty,
+        Closed,
+    }
+
+    /// The real mailbox queue with `u64` messages.
+    pub struct VQueue(Queue<u64>);
+
+    /// A popped message; its slot is released when this is dropped.
+    pub struct VBorrow<'a>(MessageBorrow<'a, u64>);
+
+    impl VBorrow<'_> {
+        pub fn value(&self) -> u64 {
+            *self.0
+        }
+    }
+
+    impl VQueue {
+        pub fn new(capacity: usize) -> Self {
+            Self(Queue::new(capacity))
+        }
+        pub fn push(&self, value: u64) -> Result<(), VPushError> {
+            match self.0.push(move |b| RecycleBox::recycle(b, value)) {
+                Ok(()) => Ok(()),
+                Err(PushError::Full(_)) => Err(VPushError::Full),
+                Err(PushError::Closed) => Err(VPushError::Closed),
+            }
+        }
+        /// # Safety
+        ///
+        /// May not be called concurrently from several threads.
+        pub unsafe fn pop(&self) -> Result<VBorrow<'_>, VPopError> {
+            match self.0.pop() {
+                Ok(b) => Ok(VBorrow(b)),
+                Err(PopError::Empty) => Err(VPopError::Empty),
+                Err(PopError::Closed) => Err(VPopError::Closed),
+            }
+        }
+        pub fn close(&self) {
+            self.0.close()
+        }
+        pub fn is_closed(&self) -> bool {
+            self.0.is_closed()
+        }
+        pub fn len(&self) -> usize {
+            self.0.len()
+        }
+    }
+
+    /// Model on the receiving end of a `VChannel`: remembers the last value.
+    pub struct VModel {
+        pub last: u64,
+    }
+    impl Model for VModel {}
+
+    pub struct VSender(Sender<VModel>);
+
+    impl VSender {
+        /// The real asynchronous send (waits for space).
+        pub async fn send(&self, value: u64) -> Result<(), ()> {
+            self.0
+                .send(
+                    move |model: &mut VModel,
+                          _cx,
+                          recycle_box: RecycleBox<()>|
+                          -> RecycleBox<dyn std::future::Future<Output = ()> + Send + '_> {
+                        let fut = async move {
+                            model.last = value;
+                        };
+                        coerce_box!(RecycleBox::recycle(recycle_box, fut))
+                    },
+                )
+                .await
+                .map_err(|_| ())
+        }
+        pub fn close(&self) {
+            self.0.close()
+        }
+        pub fn is_closed(&self) -> bool {
+            self.0.is_closed()
+        }
+    }
+    impl Clone for VSender {
+        fn clone(&self) -> Self {
+            Self(self.0.clone())
+        }
+    }
+
+    pub struct VReceiver {
+        receiver: Receiver<VModel>,
+        model: VModel,
+        cx: Context<VModel>,
+        observer: Box<dyn ChannelObserver>,
+    }
+
+    impl VReceiver {
+        /// The real asynchronous receive (waits for a message, processes it).
+        pub async fn recv(&mut self) -> Result<u64, ()> {
+            match self.receiver.recv(&mut self.model, &mut self.cx).await {
+                Ok(()) => Ok(self.model.last),
+                Err(_) => Err(()),
+            }
+        }
+        pub fn close(&self) {
+            self.receiver.close()
+        }
+        pub fn len(&self) -> usize {
+            self.observer.len()
+        }
+    }
+
+    /// Creates a real mailbox channel for `VModel`.
+    pub fn vchannel(capacity: usize) -> (VSender, VReceiver) {
+        let receiver = Receiver::new(capacity);
+        let sender = receiver.sender();
+        let observer = Box::new(receiver.observer());
+        let time = AtomicTime::new(TearableAtomicTime::new(MonotonicTime::EPOCH));
+        let queue: Arc<Mutex<PriorityQueue<(MonotonicTime, usize), Action>>> =
+            Arc::new(Mutex::new(PriorityQueue::new()));
+        let cx = Context::new(
+            String::from("vmodel"),
+            GlobalScheduler::new(queue, time.reader()),
+            Address(receiver.sender()),
+        );
+
+        (
+            VSender(sender),
+            VReceiver {
+                receiver,
+                model: VModel { last: 0 },
+                cx,
+                observer,
+            },
+        )
+    }
+}
